@@ -88,6 +88,37 @@ func c06Specs(tier string, seed int) []c06Spec {
 			out = append(out, c06Spec{Base: b, GWMode: "series", Levels: lv, Alpha: []string{sym}, D: d})
 		}
 	}
+	// profiles whose horizons have very different wilting points, started just above each band's dryness limit
+	// (measurement given as volumetric water content): the evaporation demand cascades through layers at their limit
+	ex := func(lower, wp, fc, ps int) proj.Horizon {
+		return proj.Horizon{Tex: "SL3", Lower: lower, BD: 3, Corg: 0.8, CN: 10, WP: wp, FC: fc, PS: ps}
+	}
+	type lay struct {
+		hor []proj.Horizon
+		lim []float64 // largest dryness limit (wilting point / 3) within each 30 cm band
+	}
+	for _, l := range []lay{
+		{[]proj.Horizon{ex(3, 6, 20, 40), ex(9, 27, 40, 50)}, []float64{0.02, 0.09, 0.09}},
+		{[]proj.Horizon{ex(3, 27, 40, 50), ex(9, 6, 20, 40)}, []float64{0.09, 0.02, 0.02}},
+		{[]proj.Horizon{ex(1, 6, 20, 40), ex(6, 24, 38, 48)}, []float64{0.08, 0.08}},
+		{[]proj.Horizon{ex(2, 30, 42, 50), ex(4, 9, 25, 40), ex(12, 21, 35, 45)}, []float64{0.10, 0.07, 0.07, 0.07}},
+		{[]proj.Horizon{ex(3, 3, 8, 35), ex(9, 24, 38, 48)}, []float64{0.01, 0.08, 0.08}}, // coarse top: a shower re-wets it enough for full evaporation
+		{[]proj.Horizon{ex(3, 3, 9, 35), ex(6, 15, 30, 45), ex(12, 30, 42, 50)}, []float64{0.01, 0.05, 0.10, 0.10}},
+	} {
+		for _, eps := range []float64{0.001, 0.01, 0.03} {
+			for _, crop := range []string{"", "SW"} {
+				var iv []float64
+				for _, x := range l.lim {
+					iv = append(iv, x+eps)
+				}
+				b := e1Base{Soil: "layered", Hor: l.hor, GW: 99, InitVol: iv, InitN: 20, Crop: crop, ET: 3}
+				if crop != "" {
+					b.WarmUp = 30
+				}
+				out = append(out, c06Spec{Base: b, GWMode: "const", Alpha: []string{"dry-hot-windy", "hot-shower", "drizzle", "rain"}, D: d + 1})
+			}
+		}
+	}
 	return out
 }
 
@@ -95,7 +126,7 @@ func init() {
 	mc.Register(&mc.Check{
 		ID:        "C06",
 		Technique: "explicit-state bounded exploration of the real day loop: all weather words (and all groundwater-level words) up to depth D from a grid of initial states, per-layer bounds and whole-state finiteness evaluated after every day",
-		Rule: "scenario = initial state (soil incl. 1-3 layer and peat profiles x groundwater regime const/sinusoid/series x initial water x crop) with all words of Sigma^D (sinusoid: block words of 12 days per symbol; series: all level words); " +
+		Rule: "scenario = initial state (soil incl. 1-3 layer and peat profiles and profiles with contrasting wilting points started just above each layer's dryness limit x groundwater regime const/sinusoid/series x initial water x crop) with all words of Sigma^D (sinusoid: block words of 12 days per symbol; series: all level words); " +
 			"state = (water profile, field capacities, groundwater level); non-trivial = day on which a layer sits at a bound, capillary rise is active or the groundwater level changed",
 		Assumptions: []string{"bounds use 1e-12 slack", "every float64 reachable from the run's state struct by reflection is inspected, and the text of the daily/yearly/crop result files is searched for NaN/Inf"},
 		Bound: func(t string) string {
@@ -329,9 +360,9 @@ func c06Run(raw json.RawMessage, c *mc.Ctx) {
 	}
 	start := proj.ZEIT(proj.D(h0))
 	peat := ""
-	if soilCat[sp.Base.Soil][0].Tex[0] == 'H' {
+	if hz := sp.Base.horizons(); hz[0].Tex[0] == 'H' {
 		peat = " peat"
-		if soilN(sp.Base.Soil) < 9 {
+		if hz[len(hz)-1].Lower < 9 {
 			peat += " N<9"
 		}
 	}
